@@ -287,6 +287,32 @@ theorem all_histories_lib (f : List ℝ → ℝ) (ps : List (Shape ℝ × ℝ))
       (∀ s ∈ w, s.shape.Accepts s.fn ∧ s.fn = s.tp.getOriginal libPI) :=
   all_histories libPI libTINY libTINY_pos f ps h hn upds hl
 
+/-- The property as quantified: for functions with any number of parameters mixing all eight bound
+configurations (and unconstrained ones), initial values inside their constraints at least `1e-9`
+away from every finite bound, and any history of updates of any subsets of the transformed
+coordinates with any real values: wrapping succeeds, no update raises, and afterwards the wrapper's
+value is the wrapped function evaluated at the back-transformed point, which satisfies all the
+original constraints. -/
+theorem all_histories_margin (f : List ℝ → ℝ) (ps : List (Shape ℝ × ℝ))
+    (h : ∀ p ∈ ps, Margin p.1 p.2)
+    (upds : List (List (Option ℝ))) (hl : ∀ u ∈ upds, u.length = ps.length) :
+    ∃ w0 w, init libPI libTINY ps = .ok w0 ∧ fnVals w0 = ps.map (·.2) ∧
+      origs libPI w0 = ps.map (·.2) ∧
+      Reparam.run libPI w0 upds = .ok w ∧
+      Reparam.value f w = f (origs libPI w) ∧
+      (∀ s ∈ w, s.shape.Accepts s.fn ∧ s.fn = s.tp.getOriginal libPI) := by
+  have ha : ∀ p ∈ ps, Admits libTINY p.1 p.2 := fun p hp => (margin_admits (h p hp)).1
+  have hn : ∀ p ∈ ps, NotNudged libTINY p.1 p.2 := fun p hp => (margin_admits (h p hp)).2
+  obtain ⟨w0, w, e0, e1, e2, e3⟩ := all_histories_lib f ps ha hn upds hl
+  obtain ⟨w0', e0', f1, _, _, f4, _⟩ := wrap_preserves_values_lib ps ha
+  have : w0' = w0 := by rw [e0] at e0'; injection e0' with e; exact e.symm
+  subst this
+  refine ⟨w0', w, e0, f1, ?_, e1, e2, e3⟩
+  rw [f4]
+  apply List.map_congr_left
+  intro p hp
+  exact nudge_eq_self (hn p hp)
+
 /-! ## Non-vacuity: the hypotheses are satisfiable -/
 
 /-- `TINY()` is small: the hypotheses `Admits`/`NotNudged` hold for ordinary data -/
